@@ -33,12 +33,16 @@ def base_vectors(rng, d):
     return vs[:NVEC]
 
 
-def make_inputs(wd, seed, maxd, maxcols=8):
+def make_inputs(wd, seed, maxd, maxcols=200):
     rng = vlib.Rng(seed ^ 0x177)
     X = []
     for d in range(maxd + 1):
         X.append(base_vectors(rng, d))
-    M = [1, 3, P - 2, 0x123456789ABCDEF, 7, 2**32, P - 1, 0xFFFFFFFF][:maxcols]
+    M = [1, 3, P - 2, 0x123456789ABCDEF, 7, 2**32, P - 1, 0xFFFFFFFF]
+    mr = vlib.Rng(seed ^ 0x3C01)
+    while len(M) < maxcols:
+        M.append(1 + mr.next() % (P - 1))      # column multipliers of wide matrices (non-zero)
+    M = M[:maxcols]
     W = parse_roots()
     with open(os.path.join(wd, 'ntt_inputs.txt'), 'w') as f:
         for d, vs in enumerate(X):
@@ -89,6 +93,18 @@ def enum_cases(calls, smax, tier, seed, sub=1):
                     for dst in ['same', 'other']:
                         cid += 1
                         cases.append((cid, call, S, d, e, 0, 3, 1, dst, 'null', 2, 0, 0))
+        # wide matrices: column counts around and at multiples of the vector widths / of 64 (chunked row operations)
+        for d in (2, 3):
+            for e in ((0, 1) if call == 'ext' else (0,)):
+                for nc in (16, 33, 64, 65, 128, 192):
+                    for nph, nb, dst, buf in [(2, 1, 'same', 'null'), (3, 1, 'other', 'caller'), (2, 1, 'null', 'null'), (1, 3, 'same', 'caller'), (4, 2, 'other', 'null'), (2, 5, 'same', 'null')]:
+                        if call == 'ext' and dst == 'null':
+                            dst = 'same'
+                        k += 1
+                        if tier == 'quick' and (k % 2) and nc not in (64, 128):
+                            continue
+                        cid += 1
+                        cases.append((cid, call, d, d, e, nc, nph, nb, dst, buf, [1, 2, 3, 8][k % 4], k % NVEC, 0))
     return cases
 
 
